@@ -293,20 +293,27 @@ func codecValue2(w int, r SRow, f string) sVal {
 
 // ---- generation --------------------------------------------------------------------
 
-// The long-run flavour (one C07 case in 30 without crash images): max-rows-per-segment = 131072 - the setting has no
+// The long-run flavour (one C07 case in 30 without crash images): max-rows-per-segment = 65528 - the setting has no
 // upper bound in the product - and one series that gets codecLongRows rows of the float field alone in ONE write, the
-// value changing every codecLongRun rows: one block of three runs, each longer than any 15-bit (and 14-bit) run counter.
-const (
-	codecLongRun  = 36000
-	codecLongRows = 100000
-	codecLongSeg  = 131072
-)
+// value changing after codecLongRun rows: one block of two runs, the first longer than any 15-bit (and 14-bit) run counter.
+// Segments stay below 65536 rows: above that an out-of-order merge loses rows on the unchanged tree (lead L6 in
+// notes/leads.md, seen with 100000 rows, not triaged) - VERIF_C07_LONGRUN=big selects that size for triage runs,
+// VERIF_C07_LONGRUN=all draws the flavour for every case without crash images (development aid).
+const codecLongRun = 36000
 
-// codecLongRunsOn: the flavour is NOT part of the registered check yet.  Its first run on the unchanged tree ended in
-// missing_row after an out-of-order merge of a 100000-row segment (row 100000-65536 and later ones gone: a 16-bit row
-// count somewhere in the merge path) - lead L6 in notes/leads.md, not triaged; until it is, VERIF_C07_LONGRUN=1 turns
-// the flavour on for development runs only (no PRNG draw is made when it is off).
-func codecLongRunsOn() bool { return os.Getenv("VERIF_C07_LONGRUN") == "1" }
+var codecLongRows, codecLongSeg = 60000, 65528
+
+func init() {
+	if os.Getenv("VERIF_C07_LONGRUN") == "big" {
+		codecLongRows, codecLongSeg = 100000, 131072
+	}
+}
+
+// codecLongRunsDraw: one PRNG draw per C07 case without crash images.
+func codecLongRunsDraw(r *core.Rand) bool {
+	hit := r.Intn(30) == 0
+	return hit || os.Getenv("VERIF_C07_LONGRUN") != ""
+}
 
 func genCodecLongRuns(r *core.Rand, c *SCase, m int) []SRow {
 	s := r.Intn(c.NSeries)
